@@ -65,6 +65,23 @@ UNITS = {
              'find': 'if prev_idx.end() != 0 {', 'replace': 'if prev_idx.end() > 1 {'},
         ],
     },
+    'v_cc': {
+        'tpl': 'units/v_cc.rs.tpl', 'rlimit': 80,
+        'mutants': [
+            {'name': 'last elementary interval of a range excluded', 'file': 'sudachi/src/dic/character_category.rs',
+             'find': 'if boundaries[i] > range.end {', 'replace': 'if boundaries[i] >= range.end {'},
+            {'name': 'range applied from one interval too early', 'file': 'sudachi/src/dic/character_category.rs',
+             'find': 'Ok(i) => i + 1,', 'replace': 'Ok(i) => i,'},
+            {'name': 'lookup returns the previous interval on an exact boundary hit', 'file': 'sudachi/src/dic/character_category.rs',
+             'find': 'Ok(idx) => self.categories[idx + 1],', 'replace': 'Ok(idx) => self.categories[idx],'},
+            {'name': 'uncovered gaps keep the empty class', 'file': 'sudachi/src/dic/character_category.rs',
+             'find': '*cat = CategoryType::DEFAULT;', 'replace': '*cat = CategoryType::empty();'},
+            {'name': 'merge keeps the first boundary of a merged run', 'file': 'sudachi/src/dic/character_category.rs',
+             'find': 'if categories[i] == last_category {\n                last_boundary = boundaries[i];', 'replace': 'if categories[i] == last_category {\n                last_boundary = last_boundary;'},
+            {'name': 'overlapping ranges overwrite instead of union', 'file': 'sudachi/src/dic/character_category.rs',
+             'find': 'categories[i] |= range.categories;', 'replace': 'categories[i] = range.categories;'},
+        ],
+    },
 }
 
 NOT_APPLICABLE = {
@@ -74,6 +91,13 @@ for _i in range(1, 21):
     NOT_APPLICABLE.setdefault('C%02d' % _i, 'not yet under contract in this revision of /verif (see DESIGN.md build order)')
 
 PROPS = {
+    'C17': {
+        'level_text': 'Verus proves for the real CharacterCategory::compile and get_category_types, for every list of definition ranges and every u32 code point: the reported class set equals the union of the classes of all ranges containing the code point, or DEFAULT when none does (postcondition `forall c: spec_get(c).bits == expected(ranges, c)` + lookup == spec_get), independent of order, overlap and adjacency',
+        'level_note': 'assumed: collect_boundaries (BTreeSet) returns the sorted, duplicate-free list of all range endpoints; <[u32]>::binary_search contract; bitflags ops are u32 bit ops (R16); ranges have begin < end (checked by the reader, which itself - text/hex parsing in read_character_definition - is not under contract)',
+        'verus': ['v_cc'],
+        'kani': [],
+        'assumptions': ['BTreeSet iteration is sorted and duplicate-free', 'binary_search std contract', 'definition-file text parsing (read_character_definition) not verified'],
+    },
     'C20': {
         'level_text': 'complete (loop-free, full i64 / full dimension domain) Kani proofs on the compiled crate that check_left_id / check_right_id / check_cost accept exactly the values that index an existing matrix line / fit i16 and return them unchanged',
         'level_note': 'so far only util/check_params.rs; unk.def parsing, inhibit_connection pairs and user POS handling are not yet under contract',
